@@ -36,7 +36,9 @@ def main():
     nums = [["INT", "(", "A", ")"], ["VAL", "(", "A$", ")"], ["BUTTON", "(", "2", ")"], ["JOYSTK", "(", "A", ")"], ["INSTR", "(", "2", ",", "A$", ",", "S:AB", ")"],
             ["LEN", "(", "STR$", "(", "A", ")", ")"], ["A", "+", "INT", "(", "2", ")"], ["ABS", "(", "VAL", "(", "S:AB", ")", ")"]]
     strs = [["STR$", "(", "A", ")"], ["HEX$", "(", "A", ")"], ["STRING$", "(", "2", ",", "A$", ")"], ["INKEY$"], ["A$", "+", "STR$", "(", "2", ")"],
-            ["LEFT$", "(", "HEX$", "(", "2", ")", ",", "INT", "(", "A", ")", ")"]]
+            ["LEFT$", "(", "HEX$", "(", "2", ")", ",", "INT", "(", "A", ")", ")"],
+            ["N$", "(", "1", ")"], ["N$", "(", "INT", "(", "A", ")", ")", "+", "A$"], ["M$", "(", "1", ",", "2", ")"]]
+    nums += [["D", "(", "1", ")"], ["LEN", "(", "N$", "(", "2", ")", ")"], ["D", "(", "INT", "(", "A", ")", ")", "+", "1"]]
     for tag, tpl in c05.CONTEXTS:
         for k in range(12 if thorough else 4):
             plan.append(("ctx:" + tag, ["5 INPUT A,B,A$"] + c05.fill(tpl, rng, nums, strs), {"add_standard_prefix": bool(k % 2), "initialize_vars": bool(k % 3)}))
@@ -44,7 +46,9 @@ def main():
         (["10 INPUT A"], {}), (["10 LINE INPUT \"P\";A$"], {}), (["10 DATA 1,,2", "20 READ A,B,C"], {}), (["10 DATA ,X", "20 READ A,B$"], {}),
         (["10 PRINT A;B$;A+1"], {}), (["10 PRINT @5,A"], {}), (["10 HPRINT(1,2),A"], {}), (["10 HPRINT(1,2),STR$(A)"], {}),
         (["10 HBUFF 1,10:HGET(1,2)-(3,4),1:HPUT(1,2)-(3,4),1,PSET"], {}), (["10 Z=JOYSTK(0):Y=JOYSTK(1)"], {}),
-        (["10 ON ERR GOTO 20:ON BRK GOTO 20", "20 END"], {}), (["10 WIDTH 40:CLS:SOUND 1,1:PLAY \"C\""], {"default_width32": False}),
+        (["10 ON ERR GOTO 20:ON BRK GOTO 20", "20 END"], {}), (["10 PRINT N$(1);D(2);N$(2)+\"A\""], {}), (["10 DATA ,", "20 READ A,N$(2)"], {}),
+        (["10 DATA ,,", "20 READ D(1),N$(2),M$(1,1)"], {}), (["10 HPRINT(1,2),N$(1)"], {}), (["5 DIM N$(3),D(3)", "10 PRINT N$(1);D(2)", "20 HPRINT(1,2),N$(3)"], {}),
+        (["10 PLAY N$(1):HDRAW N$(2)"], {}), (["10 INPUT N$(1),D(1)", "20 LINE INPUT N$(2)"], {}), (["10 WIDTH 40:CLS:SOUND 1,1:PLAY \"C\""], {"default_width32": False}),
     ]
     for lines, o in extra:
         plan.append(("extra", lines, dict(o)))
